@@ -394,7 +394,7 @@ func checkC15(w *World, r *Report) {
 	checkGenParams(w, r, tm, initTree, exportTree)
 	checkGenValidPos(w, r, tm)
 	// ids drawn after an import are fresh, and every imported bid is numbered by its auction's counter
-	r.Sub(checkC19, "ID-MONO")
+	r.SubWhere(checkC19, keepPrefix("genesis:"), "ID-MONO")
 
 	// ------------------------------------------------------------ GEN-DUPKEY
 	validate := w.methodOf(gs, "Validate")
@@ -558,12 +558,19 @@ func (g *genParamsRule) Compare(x *Explorer, fr *Frame, op token.Token, a, b ssa
 			return false
 		}
 		t := x.TM.OperandAt(fr, c, c.Call.Args[0])
+		// the measured value is F — possibly joined with what the record held before it was overwritten with the
+		// stored parameters (the default genesis' own value), never another field
+		isF := false
 		for _, alt := range t.Alts() {
-			if paramsFieldOf(alt) != g.field {
+			switch paramsFieldOf(alt) {
+			case g.field:
+				isF = true
+			case "":
+			default:
 				return false
 			}
 		}
-		return true
+		return isF
 	}
 	isZero := func(v ssa.Value) bool {
 		c, ok := v.(*ssa.Const)
